@@ -30,7 +30,7 @@ var (
 	fastBudget    = budget{cpu: 20, wall: 20}   // first attempt, in a shared persistent worker
 	aloneBudget   = budget{cpu: 40, wall: 60}   // re-run alone in a fresh worker
 	aloneWallMax  = 300.0                       // a starved re-run is extended up to here until it has had its CPU
-	earlyHangCPU  = 2.0                         // after this much CPU a slow case is sampled; a *known* hang signature ends the attempt
+	earlyHangCPU  = 0.75                        // after this much CPU a slow case is sampled; a *known* hang signature ends the attempt
 	minimizeEvals = 60
 	minimizeWall  = 90 * time.Second // minimisation is a convenience: time-boxed, the unminimised case is a valid replay too
 )
@@ -171,7 +171,8 @@ type fastResult struct {
 }
 
 // evalFast runs the case in the shared persistent worker.
-func (e *engine) evalFast(w *worker, c Case, img []byte) fastResult {
+func (e *engine) evalFast(w *worker, img []byte, filt []FSpec) fastResult {
+	w.filt = filt
 	path := filepath.Join(e.dir, fmt.Sprintf("w%d.h5", w.id))
 	if err := os.WriteFile(path, img, 0o644); err != nil {
 		return fastResult{}
@@ -196,8 +197,9 @@ func (e *engine) evalFast(w *worker, c Case, img []byte) fastResult {
 
 // evalAlone runs the case in a fresh worker of its own with the generous budget; a case that does not terminate
 // after having consumed its CPU budget is a confirmed hang. inconclusive = the re-run was starved of CPU.
-func (e *engine) evalAlone(c Case, img []byte) (fails []Failure, inconclusive string) {
+func (e *engine) evalAlone(img []byte, filt []FSpec) (fails []Failure, inconclusive string) {
 	w := newWorker(e.dir)
+	w.filt = filt
 	defer w.stop()
 	path := filepath.Join(e.dir, fmt.Sprintf("alone%d-%d.h5", w.id, atomic.AddInt64(&e.seq, 1)))
 	if err := os.WriteFile(path, img, 0o644); err != nil {
@@ -230,7 +232,7 @@ func (e *engine) evalAlone(c Case, img []byte) (fails []Failure, inconclusive st
 type stats struct {
 	mu          sync.Mutex
 	sigCount    map[string]int
-	sigSample   map[string]Case
+	sigSample   map[string]any
 	sigFailure  map[string]Failure
 	violSigs    map[string]bool
 	unconfirmed int
@@ -239,22 +241,33 @@ type stats struct {
 }
 
 func newStats() *stats {
-	return &stats{sigCount: map[string]int{}, sigSample: map[string]Case{}, sigFailure: map[string]Failure{}, violSigs: map[string]bool{}}
+	return &stats{sigCount: map[string]int{}, sigSample: map[string]any{}, sigFailure: map[string]Failure{}, violSigs: map[string]bool{}}
 }
 
-func (s *stats) seen(f Failure, c Case) {
+func nMuts(c any) int {
+	if cc, ok := c.(Case); ok {
+		return len(cc.Muts)
+	}
+	return 0
+}
+
+func (s *stats) seen(f Failure, c any) {
 	s.mu.Lock()
 	defer s.mu.Unlock()
 	sg := f.Sig()
 	s.sigCount[sg]++
-	if _, ok := s.sigSample[sg]; !ok || len(c.Muts) < len(s.sigSample[sg].Muts) {
+	if old, ok := s.sigSample[sg]; !ok || nMuts(c) < nMuts(old) {
 		s.sigSample[sg] = c
 		s.sigFailure[sg] = f
 	}
 }
 
-func detail(f Failure, c Case) string {
-	return fmt.Sprintf("%s in %s (%s) op=%s msg=%q frames=%s base=%s", f.Kind, f.Fn, f.Class, f.Op, f.Msg, strings.Join(f.Frames, " < "), c.Base)
+func detail(f Failure, c any) string {
+	base := ""
+	if cc, ok := c.(Case); ok {
+		base = " base=" + cc.Base
+	}
+	return fmt.Sprintf("%s in %s (%s) op=%s msg=%q frames=%s%s", f.Kind, f.Fn, f.Class, f.Op, f.Msg, strings.Join(f.Frames, " < "), base)
 }
 
 func (e *engine) labels(c Case, img []byte, inside int) (bool, []string) {
@@ -301,7 +314,7 @@ func (e *engine) labels(c Case, img []byte, inside int) (bool, []string) {
 	return nt, out
 }
 
-// process runs one case end to end and returns the unlisted (violating) failures, already confirmed alone.
+// process runs one file case end to end and returns the unlisted (violating) failures, already confirmed alone.
 func (e *engine) process(w *worker, c Case, st *stats, rec *vt.Rec, intact bool) (viol []Failure, fr fastResult) {
 	img, inside, err := e.image(c)
 	if err != nil {
@@ -312,9 +325,15 @@ func (e *engine) process(w *worker, c Case, st *stats, rec *vt.Rec, intact bool)
 	if intact {
 		nt, labels = false, []string{"intact-base-file"}
 	}
-	rec.Case(sub, c, nt, labels...)
+	return e.processImg(w, sub, c, img, nil, nt, labels, st, rec)
+}
+
+// processImg is the common path of all sub-checks: run in the shared worker, book known findings, re-run anything
+// unlisted (or slow) alone in a fresh worker.
+func (e *engine) processImg(w *worker, subName string, c any, img []byte, filt []FSpec, nt bool, labels []string, st *stats, rec *vt.Rec) (viol []Failure, fr fastResult) {
+	rec.Case(subName, c, nt, labels...)
 	e.excl.RLock()
-	fr = e.evalFast(w, c, img)
+	fr = e.evalFast(w, img, filt)
 	e.excl.RUnlock()
 
 	pending := fr.timedOut
@@ -323,14 +342,14 @@ func (e *engine) process(w *worker, c Case, st *stats, rec *vt.Rec, intact bool)
 		outcome = "outcome=open-error"
 	}
 	if fr.resp != nil && fr.resp.AllocMB >= 256 {
-		rec.Label(sub, "allocated>=256MiB-without-failure", 1)
+		rec.Label(subName, "allocated>=256MiB-without-failure", 1)
 	}
 	for _, f := range fr.fails {
 		st.seen(f, c)
 		outcome = "outcome=" + f.Kind
 		if id := knownID(f); id != "" {
 			rec.KnownHit(id, knownWhat[id], c)
-			rec.Label(sub, "known:"+id+":"+f.Sig(), 1)
+			rec.Label(subName, "known:"+id+":"+f.Sig(), 1)
 		} else {
 			pending = true
 		}
@@ -338,7 +357,7 @@ func (e *engine) process(w *worker, c Case, st *stats, rec *vt.Rec, intact bool)
 	if fr.timedOut {
 		outcome = "outcome=slow-or-hang"
 	}
-	rec.Label(sub, outcome, 1)
+	rec.Label(subName, outcome, 1)
 	if os.Getenv("VERIF_C07_HARVEST") == "1" && !fr.timedOut {
 		return nil, fr // development aid: collect signatures (VERIF_C07_DUMP) without confirming / minimising
 	}
@@ -347,20 +366,20 @@ func (e *engine) process(w *worker, c Case, st *stats, rec *vt.Rec, intact bool)
 	}
 	// anything unlisted (or a timeout) is re-run alone in a fresh worker before it counts
 	e.excl.Lock()
-	fails, inconcl := e.evalAlone(c, img)
+	fails, inconcl := e.evalAlone(img, filt)
 	e.excl.Unlock()
 	if inconcl != "" {
 		st.mu.Lock()
 		st.inconcl++
 		st.mu.Unlock()
-		rec.Note("inconclusive re-run (%s): %s", c.Base, inconcl)
+		rec.Note("inconclusive re-run: %s", inconcl)
 		return nil, fr
 	}
 	if fr.timedOut && len(fails) == 0 {
 		st.mu.Lock()
 		st.slow++
 		st.mu.Unlock()
-		rec.Label(sub, "slow-case-terminated-on-re-run", 1)
+		rec.Label(subName, "slow-case-terminated-on-re-run", 1)
 		fr.slowOK = true
 	}
 	reproduced := false
@@ -371,7 +390,7 @@ func (e *engine) process(w *worker, c Case, st *stats, rec *vt.Rec, intact bool)
 		if id := knownID(f); id != "" {
 			if fr.timedOut {
 				rec.KnownHit(id, knownWhat[id], c)
-				rec.Label(sub, "known:"+id+":"+f.Sig(), 1)
+				rec.Label(subName, "known:"+id+":"+f.Sig(), 1)
 			}
 			continue
 		}
@@ -384,7 +403,7 @@ func (e *engine) process(w *worker, c Case, st *stats, rec *vt.Rec, intact bool)
 		st.mu.Lock()
 		st.unconfirmed++
 		st.mu.Unlock()
-		rec.Label(sub, "failure-not-reproduced-in-fresh-worker", 1)
+		rec.Label(subName, "failure-not-reproduced-in-fresh-worker", 1)
 	}
 	return viol, fr
 }
@@ -406,7 +425,7 @@ func (e *engine) minimize(c Case, sig string) Case {
 		if err != nil {
 			return false
 		}
-		fails, _ := e.evalAlone(cc, img)
+		fails, _ := e.evalAlone(img, nil)
 		for _, f := range fails {
 			if f.Sig() == sig {
 				return true
@@ -452,6 +471,58 @@ func (e *engine) minimize(c Case, sig string) Case {
 	return c
 }
 
+// session bundles what a sub-check needs to run cases and report violations.
+type session struct {
+	t     *testing.T
+	e     *engine
+	st    *stats
+	rec   *vt.Rec
+	mu    sync.Mutex
+	nViol int
+}
+
+// report saves one violation per distinct signature (file cases are minimised first) and fails the test.
+func (s *session) report(subName string, c any, f Failure) {
+	s.mu.Lock()
+	if s.st.violSigs[f.Sig()] || s.nViol >= 25 {
+		s.mu.Unlock()
+		return
+	}
+	s.st.violSigs[f.Sig()] = true
+	s.nViol++
+	s.mu.Unlock()
+	if cc, ok := c.(Case); ok {
+		s.e.excl.Lock()
+		c = s.e.minimize(cc, f.Sig())
+		s.e.excl.Unlock()
+	}
+	d := "unlisted failure signature " + f.Sig() + ": " + detail(f, c)
+	p := vt.ReportViolation(prop, subName, c, d)
+	s.t.Errorf("VIOLATION %s replay=%s", d, p)
+}
+
+// parallel runs n jobs on nWorkers workers; job i is produced by mk (ok=false: skip).
+func (s *session) parallel(nWorkers, n int, run func(w *worker, i int)) {
+	var wg sync.WaitGroup
+	var next int64 = -1
+	for k := 0; k < nWorkers; k++ {
+		wg.Add(1)
+		go func() {
+			defer wg.Done()
+			w := newWorker(s.e.dir)
+			defer w.stop()
+			for {
+				i := int(atomic.AddInt64(&next, 1))
+				if i >= n {
+					return
+				}
+				run(w, i)
+			}
+		}()
+	}
+	wg.Wait()
+}
+
 // ---- the campaign ------------------------------------------------------------------------------------
 
 func envInt(name string, def int) int {
@@ -489,7 +560,7 @@ func triage(e *engine, path string) {
 		if err != nil {
 			continue
 		}
-		fails, inc := e.evalAlone(c, img)
+		fails, inc := e.evalAlone(img, nil)
 		cj, _ := json.Marshal(c)
 		fmt.Fprintf(&sb, "## %s\n   case %s\n", k, cj)
 		if inc != "" {
@@ -521,25 +592,9 @@ func campaign(t *testing.T) {
 		}
 	}
 	nWorkers := envInt("VERIF_C07_WORKERS", vt.N(4, 2))
-	total := envInt("VERIF_C07_CASES", vt.N(5000, 125000))
-	var violMu sync.Mutex
-	nViol := 0
-	report := func(c Case, f Failure) {
-		violMu.Lock()
-		if st.violSigs[f.Sig()] || nViol >= 25 {
-			violMu.Unlock()
-			return
-		}
-		st.violSigs[f.Sig()] = true
-		nViol++
-		violMu.Unlock()
-		e.excl.Lock()
-		mc := e.minimize(c, f.Sig())
-		e.excl.Unlock()
-		d := "unlisted failure signature " + f.Sig() + ": " + detail(f, mc)
-		p := vt.ReportViolation(prop, sub, mc, d)
-		t.Errorf("VIOLATION %s replay=%s", d, p)
-	}
+	total := envInt("VERIF_C07_CASES", vt.N(5000, 75000))
+	ses := &session{t: t, e: e, st: st, rec: rec}
+	report := func(c Case, f Failure) { ses.report(sub, c, f) }
 
 	// 1. intact base files: those the reader cannot handle are failures themselves and are not mutated
 	var names []string
@@ -644,7 +699,7 @@ func campaign(t *testing.T) {
 				}
 				if i%5000 == 4999 && os.Getenv("VERIF_C07_DUMP") != "" {
 					st.mu.Lock()
-					dumpStats(st, env)
+					dumpStats(st, env, "")
 					st.mu.Unlock()
 				}
 			}
@@ -662,10 +717,10 @@ func campaign(t *testing.T) {
 	if st.inconcl > 0 {
 		rec.Note("shard %d: %d re-runs inconclusive (starved of CPU)", env.Shard, st.inconcl)
 	}
-	dumpStats(st, env)
+	dumpStats(st, env, "")
 }
 
-func dumpStats(st *stats, env vt.Env) {
+func dumpStats(st *stats, env vt.Env, tag string) {
 	if dump := os.Getenv("VERIF_C07_DUMP"); dump != "" {
 		_ = os.MkdirAll(dump, 0o755)
 		type row struct {
@@ -673,7 +728,7 @@ func dumpStats(st *stats, env vt.Env) {
 			Count   int     `json:"count"`
 			Known   string  `json:"known"`
 			Failure Failure `json:"failure"`
-			Case    Case    `json:"case"`
+			Case    any     `json:"case"`
 		}
 		var rows []row
 		for sg, n := range st.sigCount {
@@ -681,7 +736,7 @@ func dumpStats(st *stats, env vt.Env) {
 		}
 		sort.Slice(rows, func(i, j int) bool { return rows[i].Sig < rows[j].Sig })
 		b, _ := json.MarshalIndent(rows, "", " ")
-		_ = os.WriteFile(filepath.Join(dump, fmt.Sprintf("sigs-seed%d-shard%d.json", env.Seed, env.Shard)), b, 0o644)
+		_ = os.WriteFile(filepath.Join(dump, fmt.Sprintf("sigs-seed%d-shard%d%s.json", env.Seed, env.Shard, tag)), b, 0o644)
 	}
 }
 
@@ -692,7 +747,7 @@ func runOne(c Case) vt.Verdict {
 	if err != nil {
 		return vt.Skipped("%v", err)
 	}
-	fails, inconcl := e.evalAlone(c, img)
+	fails, inconcl := e.evalAlone(img, nil)
 	if inconcl != "" {
 		return vt.Skipped("inconclusive: %s", inconcl)
 	}
@@ -714,5 +769,9 @@ func runOne(c Case) vt.Verdict {
 }
 
 func TestProp(t *testing.T) {
-	vt.Run(t, prop, vt.Func[Case]{Name: sub, Body: campaign, One: runOne})
+	vt.Run(t, prop,
+		vt.Func[Case]{Name: sub, Body: campaign, One: runOne},
+		vt.Func[Case]{Name: subFields, Body: fieldsEnum, One: runOne},
+		vt.Func[FCase]{Name: subFilters, Body: filterStreams, One: runOneF},
+	)
 }
